@@ -119,6 +119,9 @@ def prior : String → Option Dir
   | "stale-wrong-hash" => some ⟨.parsed true false, .opens .empty⟩
   | "stale-no-hash" => some ⟨.parsed true false, .opens .empty⟩
   | "stale-null-hash" => some ⟨.parsed true false, .opens .empty⟩
+  | "olddocs-wrong-hash" => some ⟨.parsed true false, .opens .old⟩
+  | "olddocs-other-version" => some ⟨.parsed false true, .opens .old⟩
+  | "olddocs-no-hash" => some ⟨.parsed true false, .opens .old⟩
   | _ => none
 
 /-- Damage done to the data directory between two starts (the states the property
